@@ -208,6 +208,19 @@ Proof.
   split; [vm_compute; discriminate | vm_compute; reflexivity].
 Qed.
 
+(** (c) the rng SETTER of a selection protocol (finding C08-selprot-rng-setter-stale-optimiser): object 0 = the protocol, object 1 = the
+        default optimiser its constructor built from the constructor's generator (rng = None: numpy's global stream).  [prot.rng = g]
+        rebinds object 0 only; select() lets the optimiser draw, then samples the configuration: the global stream is advanced although
+        the caller supplied generator 0.  Had the setter re-pointed the optimiser as well, the program would be isolated. *)
+Definition setter_stale_prog : list (step Z Z) := [SNew 0 LNp; SCopy 1 0; SNew 0 (LEx 0); SUse 1 zuse; SUse 0 zuse].
+Definition setter_repointing_prog : list (step Z Z) := [SNew 0 LNp; SCopy 1 0; SNew 0 (LEx 0); SCopy 1 0; SUse 1 zuse; SUse 0 zuse].
+Theorem setter_stale_part_not_isolated : exists (e : env) (w : world Z),
+  snd (run_obj 0%Z setter_stale_prog e w) LNp <> w LNp /\
+  snd (run_obj 0%Z setter_repointing_prog e w) LNp = w LNp /\ snd (run_obj 0%Z setter_repointing_prog e w) LPy = w LPy.
+Proof.
+  exists (fun _ => LNp), (fun _ => 3%Z). split; [vm_compute; discriminate|]. split; vm_compute; reflexivity.
+Qed.
+
 (** non-vacuity of [only]: construct with generator 0, copy, copy the copy, use all three *)
 Example only_satisfiable : only 0 (fun _ => LNp) ([SNew 0 (LEx 0); SCopy 1 0; SCopy 2 1; SUse 1 zuse; SUse 2 zuse; SUse 0 zuse] : list (step Z Z)).
 Proof. cbn. repeat split. Qed.
